@@ -12,6 +12,7 @@ PROP = "C01"
 
 
 def cases(tier):
+    yield from oc.enum_examples(tier)  # slowest first
     yield from oc.enum_special(tier)
     yield from oc.enum_S1(tier)
     yield from oc.enum_S2(tier)
@@ -48,7 +49,7 @@ def run_case(desc):
         for sig, what in oc.check_c01(desc, ot, b, areacs):
             viols.append((sig, what, dict(oc.case_label(desc), backend=b)))
         outcome.append(tuple(sorted((s, tuple(sorted(p.items()))) for s, p in ot.ydot.items())))
-    nontrivial = bool(desc.get("reactions") or desc.get("files"))
+    nontrivial = bool(desc.get("reactions") or desc.get("files") or desc.get("example"))
     return len(oc.ALL_BACKENDS), viols, (hash(tuple(outcome)), nontrivial)
 
 
@@ -64,7 +65,7 @@ def run(ctx):
     evals = 0
     outcomes = set()
     nontriv = 0
-    for n, viols, out in ctx.pmap(run_case, uniq, chunksize=16):
+    for n, viols, out in ctx.pmap(run_case, uniq, chunksize=1 if len(uniq) < 200 else 4):
         evals += n
         ctx.absorb(viols)
         if out != "error":
